@@ -50,6 +50,11 @@ def run_forked(prop, spec, scratch_root, n, want_sample=False):
             os.makedirs(d)
             ctx = Ctx(d)
             ctx.want_sample = want_sample
+            from . import core as _core
+            # odd seeds: the executions of a spec share one interpreter (successive
+            # run_internal calls); even seeds: every execution gets fresh runner modules
+            _core.REUSE_MODULES = bool(spec.get('reuse_modules',
+                                                (spec.get('seed') or 0) % 2 == 1))
             out = prop.run(spec, ctx)
             data = json.dumps(out).encode()
         except BaseException:  # noqa
